@@ -63,6 +63,7 @@ type File struct {
 	Path        string
 	Constraints []string // //go:build lines
 	Funcs       []*Func
+	Undecided   []string // file-level constructs outside any TEXT (GLOBL/DATA: static data)
 }
 
 func ParseFile(path string) (*File, error) {
@@ -118,7 +119,8 @@ func ParseFile(path string) (*File, error) {
 			continue
 		}
 		if cur == nil {
-			return nil, fmt.Errorf("%s:%d: instruction outside TEXT: %q", path, n+1, line)
+			f.Undecided = append(f.Undecided, fmt.Sprintf("%s:%d %q outside any TEXT (static data shared by every call is not modelled)", path, n+1, line))
+			continue
 		}
 		if strings.HasSuffix(line, ":") {
 			cur.Undecided = append(cur.Undecided, fmt.Sprintf("%s:%d label %q (control flow not modelled)", path, n+1, line))
